@@ -87,6 +87,7 @@ struct Lin3 {
       pa3(ar); p3(xfmPoint(ar, p));
       return true;
     }
+#ifndef C06_MINIMAL
     if (kind == "ol3") {
       L a = m3(in), b = m3(in);
       pm3(+a); pm3(a / b);
@@ -124,6 +125,7 @@ struct Lin3 {
       out.push_back(eqL); out.push_back(neL); out.push_back(eqA); out.push_back(neA);
       return true;
     }
+#endif
     if (kind == "frm") {
       V3 n = v3(in), up = v3(in);
       pm3(frame(n)); pm3(frame(n, up));
@@ -168,6 +170,7 @@ struct Quat {
       Q q = Q::rotate(u, r); pq(q); p3(q * v);
       return true;
     }
+#ifndef C06_MINIMAL
     if (kind == "oq") {
       Q a = q4(in), b = q4(in); T s = T(in.n()); V v = v3(in);
       pq(Q(s)); pq(Q(zero)); pq(Q(one));
@@ -194,6 +197,7 @@ struct Quat {
       out.push_back(eq); out.push_back(ne);
       return true;
     }
+#endif
     if (kind == "ypr") {
       T y = T(in.n()), p = T(in.n()), r = T(in.n());
       pq(Q(y, p, r));
@@ -219,6 +223,7 @@ static bool run_o2(const std::string &kind, In &in)
   return true;
 }
 
+#ifndef C06_MINIMAL
 // 2x2 kinds that exist for every element type (used for vec2d; the float run goes through run_l2 below)
 template <typename V2>
 static bool run_l2_any(const std::string &kind, In &in)
@@ -269,6 +274,7 @@ static bool run_l2_any(const std::string &kind, In &in)
   return false;
 }
 
+#endif
 static bool run_l2(const std::string &kind, In &in)
 {
   typedef LinearSpace2f L; typedef AffineSpace2f A;
@@ -281,6 +287,7 @@ static bool run_l2(const std::string &kind, In &in)
     pm2(a * b); p2(a * v); pm2(L::scale(v));
     return true;
   }
+#ifndef C06_MINIMAL
   if (kind == "ol2") {
     L a = m2(), b = m2();
     pm2(+a); pm2(a / b);
@@ -335,6 +342,7 @@ static bool run_l2(const std::string &kind, In &in)
     out.push_back(eqA2); out.push_back(neA2);
     return true;
   }
+#endif
   if (kind == "r2") {
     float r = float(in.n()); vec2f p = v2();
     pm2(L::rotate(r)); pa2(A::rotate(p, r));
@@ -360,10 +368,18 @@ int main(int argc, char **argv)
     while (ss >> tok) in.v.push_back(strtod(tok.c_str(), nullptr));
     out.clear();
     bool ok = false;
+#ifndef C06_MINIMAL
     if (mode == "f") ok = run_o2<vec2f>(kind, in) || ((kind == "f2" || kind == "ocx2") && run_l2_any<vec2f>(kind, in)) || run_l2(kind, in) || Lin3<vec3f>::run(kind, in) || Quat<float>::run(kind, in);
+#else
+    if (mode == "f") ok = run_o2<vec2f>(kind, in) || run_l2(kind, in) || Lin3<vec3f>::run(kind, in) || Quat<float>::run(kind, in);
+#endif
     else if (mode == "fa") ok = Lin3<vec3fa>::run(kind, in);
     else if (mode == "d") ok = run_o2<vec2d>(kind, in) || Quat<double>::run(kind, in);
+#ifndef C06_MINIMAL
     else if (mode == "dd") ok = run_l2_any<vec2d>(kind, in) || Lin3<vec3d>::run(kind, in);
+#else
+    else if (mode == "dd") ok = Lin3<vec3d>::run(kind, in);
+#endif
     if (!ok) { printf("%s unsupported\n", kind.c_str()); continue; }
     printf("%s", kind.c_str());
     for (double x : out) printf(" %.17g", x);
